@@ -128,6 +128,9 @@ class Session:
             res = self._do_query(q, g, e, v)
         except NotImplementedError:
             res = 'raised:NotImplementedError'
+        except Exception as ex:  # noqa  -- observation: a query must not raise on a valid graph
+            res = 'raised:' + type(ex).__name__
+            self.ok = False
         self.emit({'op': 'Query', 'q': q, 'target': int(target), 'result': res, 'ok': bool(self.ok)}, g._vertices, g._edges)
 
     def _do_query(self, q, g, e, v):
@@ -209,6 +212,18 @@ class Session:
 
     # ---- optimize ----
     def optimize(self, max_iter, fix_first, verbose, tol, split=None, twin=True):
+        try:
+            return self._optimize(max_iter, fix_first, verbose, tol, split, twin)
+        except Exception as ex:  # noqa  -- an exception escaping the library is an observation, not a failure of the harness
+            g = self.g
+            rep = {'numIter': -1, 'converged': False, 'lenResults': -1, 'lastComplete': False, 'rows': -1, 'initialOk': False, 'finalOk': False,
+                   'chi2sOk': False, 'finalIsChi2': False, 'appliedSet': [-1], 'verboseOk': True, 'splitOk': True}
+            self.emit({'op': 'OptCall', 'maxIter': int(max_iter), 'fixFirst': bool(fix_first), 'verbose': bool(verbose), 'cls': ['F'] * int(max_iter), 'rep': rep,
+                       'raised': True}, g._vertices, g._edges,
+                      {'chi2s': [], 'report': {}, 'nan': False, 'was_fixed': [], 'tol': tol, 'isolated_fixed': [], 'exception': repr(ex)})
+            return None
+
+    def _optimize(self, max_iter, fix_first, verbose, tol, split=None, twin=True):
         g = self.g
         m = int(max_iter)
         # independent observation of the trajectory: single-iteration calls on a deep copy
@@ -268,6 +283,6 @@ class Session:
                     r3 = split_g.optimize(tol=tol, max_iter=part, fix_first_pose=fix_first, verbose=False)
             rep['splitOk'] = bool(pose_digests(split_g) == after and r3.converged == ret.converged and same(r3.final_chi2, ret.final_chi2))
             detail['split'] = list(split)
-        self.emit({'op': 'OptCall', 'maxIter': m, 'fixFirst': bool(fix_first), 'verbose': bool(verbose), 'cls': cls, 'rep': rep},
+        self.emit({'op': 'OptCall', 'maxIter': m, 'fixFirst': bool(fix_first), 'verbose': bool(verbose), 'cls': cls, 'rep': rep, 'raised': False},
                   g._vertices, g._edges, detail)
         return ret
